@@ -77,6 +77,14 @@ def gen(fmt, entry, stream=False):
                              "#elif ARGSEL == 2\n in.a%d = (unsigned long long)VH_MAX(%s);\n#else\n in.a%d = ~0ULL;\n#endif\n" % (k, k, k, st, k))
             conv_t = {"hh": "unsigned char", "h": "unsigned short"}.get(length, ut)
             ref.append("ref_int(out, n, %s, %s, %s, '%s', (unsigned long long)(%s)(%s)in.a%d, 0);" % (flx, wexpr, pexpr, conv, conv_t, ut, k))
+        elif conv == "c" and length == "l":
+            # %lc: one wide character from a 4-symbol alphabet (1-4 byte UTF-8; locale model C.UTF-8), reference = its encoding
+            inputs.append("S(unsigned char, a%d)" % k)
+            args.append("(wint_t)VH_WCA[in.a%d & 3]" % k)
+            ref.append("{ unsigned cp = VH_WCA[in.a%d & 3]; if (cp < 0x80) rp_put(out, n, (char)cp); else if (cp < 0x800) { rp_put(out, n, (char)(0xC0 | (cp >> 6))); "
+                       "rp_put(out, n, (char)(0x80 | (cp & 0x3F))); } else if (cp < 0x10000) { rp_put(out, n, (char)(0xE0 | (cp >> 12))); "
+                       "rp_put(out, n, (char)(0x80 | ((cp >> 6) & 0x3F))); rp_put(out, n, (char)(0x80 | (cp & 0x3F))); } else { rp_put(out, n, (char)(0xF0 | (cp >> 18))); "
+                       "rp_put(out, n, (char)(0x80 | ((cp >> 12) & 0x3F))); rp_put(out, n, (char)(0x80 | ((cp >> 6) & 0x3F))); rp_put(out, n, (char)(0x80 | (cp & 0x3F))); } }" % k)
         elif conv == "c" and length is None:
             inputs.append("S(int, a%d)" % k)
             args.append("(int)in.a%d" % k)
@@ -176,7 +184,7 @@ def harness_file(fmt, entry, stream=False):
 
 CORE = ["%d", "%i", "%u", "%x", "%X", "%o", "%c", "%s", "a%%b", "%5d", "%-5d", "%05d", "%+d", "% d", "%.3d", "%5.3d", "%#x", "%#o",
         "%ld", "%lld", "%hd", "%hhd", "%hhu", "%hu", "%lu", "%llx", "%zu", "%jd", "%td", "%*d", "%.*d", "%.0d", "%s|%d", "ab%dcd",
-        "%5s", "%-5s", "%.2s", "%5.2s", "%c%c", "%x %o", "%08X", "%+5d", "%#5x", "%-+5d", "% 05d", "%#.3x", "%#06x", "%3c", "%-3c"]
+        "%5s", "%-5s", "%.2s", "%5.2s", "%c%c", "%x %o", "%08X", "%+5d", "%#5x", "%-+5d", "% 05d", "%#.3x", "%#06x", "%3c", "%-3c", "%lc", "ab%lc|"]
 MORE = ["%.*s", "%*s", "%%%d", "%d%%", "%+.3d", "%-#6o", "%#X", "%lli", "%hi", "%hhi", "%hx", "%hhx", "%lo", "%llo", "%zx", "%jx", "%ju", "%tx",
         "%0*d", "%-*.*d", "%+*d", "%.1s", "%.0s", "%10.4s", "%-6.1s", "%s%s", "%d %s %c", "%#.0o", "%#.0x", "%+.0d", "%5%", "%ho",
         "x%5cy", "%- 5d", "%+ d", "%00d", "%--5d", "%.10d", "%20d", "%-20d|", "%020d", "%llu", "%lx", "%lX", "%#lx", "%#llo"]
@@ -205,9 +213,9 @@ def jobs(prop, tier, only_fn=None):
         plan = [(f, ENTRIES[i % 2 if quick else i % 4]) for i, f in enumerate(fmts)]
         if not quick:
             plan += [(f, e) for f in CORE[:16] for e in ENTRIES[1:]]
-        plan += [(f, e) for f in (CORE[:6] if quick else CORE[:24]) for e in (STREAM_ENTRIES[:2] if quick else STREAM_ENTRIES)]
+        plan += [(f, e) for f in (CORE[:6] + ["ab%lc|"] if quick else CORE[:24] + ["%lc", "ab%lc|"]) for e in (STREAM_ENTRIES[:2] if quick else STREAM_ENTRIES)]
     elif prop in ("C01", "C02"):
-        plan = [(f, ENTRIES[0]) for f in (["%d", "%s", "%.2s", "%5s", "%c", "%x", "%*d", "%s|%d"] if quick else fmts)]
+        plan = [(f, ENTRIES[0]) for f in (["%d", "%s", "%.2s", "%5s", "%c", "%x", "%*d", "%s|%d", "ab%lc|"] if quick else fmts)]
         dmaxes = [4, 12] if quick else [1, 2, 3, 4, 6, 9, 13, 24]
     elif prop == "C12":
         plan = [(f, ENTRIES[0]) for f in (["%d", "%lld", "%llx", "%s", "%5.3d", "%lu"] if quick else CORE)]
@@ -216,7 +224,7 @@ def jobs(prop, tier, only_fn=None):
     elif prop == "C20":
         return out  # allocating directives (%ls, %Lf, ...): see families/alloc.py
     else:
-        sel = ["%d", "%s", "%5d", "%x", "%c", "%s|%d", "%.2s", "%lld", "%*d", "%n", "a%n", "%05d"] if quick else fmts + N_FMTS[:6]
+        sel = ["%d", "%s", "%5d", "%x", "%c", "%s|%d", "%.2s", "%lld", "%*d", "%n", "a%n", "%05d", "ab%lc|"] if quick else fmts + N_FMTS[:6]
         plan = [(f, ENTRIES[i % 4]) for i, f in enumerate(sel)]
         if quick:
             plan += [("%d", e) for e in ENTRIES[1:]] + [("%s", ENTRIES[3])]
